@@ -91,7 +91,11 @@ extern "C" void harness_formatter(void) {
   VX_ASSERT(vx_unrep_throw == 0, "the transcoder is never handed a character it cannot represent (it would throw)");
   VX_ASSERT(!tgt.overflow && tgt.n == rn, "number of bytes written equals the reference serialisation");
   for (XMLSize_t i = 0; i < OUTMAX; i++) if (i < rn && tgt.n == rn) VX_ASSERT(tgt.buf[i] == ref[i], "bytes written equal the reference: raw iff representable and not in the escape set, else entity or &#xHEX;");
+#if N >= 2
   if (c[0] >= 0xD800 && c[0] <= 0xDBFF) VX_REACH("supplementary character written as one reference");
+#else
+  if (c[0] >= 0x80) VX_REACH("unrepresentable character written as a reference");
+#endif
   if (c[0] == '<' && mode != XMLFormatter::NoEscapes) VX_REACH("markup character escaped");
   if (xml11 && c[0] == 0x1 && mode == XMLFormatter::NoEscapes) VX_REACH("XML 1.1 control character");
   free(in);
